@@ -124,6 +124,33 @@ fn write_replay(dir: &Path, r: &ViolRec) -> PathBuf {
     path
 }
 
+/// Used by watchdogs: report a violation found by a timeout and leave at once (the offending
+/// computation cannot be cancelled).
+fn emergency_violation(dir: &Path, prop: u8, tier: &str, seed: i64, spec_json: &str, msg: &str) -> ! {
+    let spec: graphs::Spec = serde_json::from_str(spec_json).unwrap_or(graphs::Spec { n: 0, edges: vec![], decl: vec![] });
+    let rec = ViolRec { prop, msg: msg.to_string(), spec: spec.clone(), cfg: explore::JobCfg::B("rank_pops".into()), choices: vec![], trace: vec![], result: String::new() };
+    let p = write_replay(dir, &rec);
+    let ev = json!({
+        "property_id": format!("C{prop:02}"),
+        "tier": tier,
+        "seed": seed,
+        "level": "model_checking",
+        "coverage": {
+            "states": 1, "transitions": 1, "traces_validated_against_impl": 1, "evaluations": 1, "distinct_nontrivial": 1,
+            "samples": [{"input": spec.short()}],
+            "exhaustive": false,
+            "explanation": "run ended by the watchdog: one input did not finish within the time limit",
+        },
+        "wall_s": 0.0,
+        "violations": 1,
+    });
+    let _ = std::fs::create_dir_all(dir.join("evidence"));
+    let _ = std::fs::write(dir.join("evidence").join(format!("C{prop:02}.json")), serde_json::to_string_pretty(&ev).unwrap());
+    println!("VIOLATION property=C{prop:02} replay={}", p.display());
+    eprintln!("    {msg} | {}", spec.short());
+    std::process::exit(1);
+}
+
 fn check(id: u8, tier: &str) -> i32 {
     let t0 = Instant::now();
     let deadline = deadline_for(tier);
@@ -159,7 +186,22 @@ fn check(id: u8, tier: &str) -> i32 {
                 props_run::c08_ignore_differential(tier, deadline, &mut st, &mut log);
             }
         }
-        11 | 12 | 13 | 14 | 17 | 18 => props_build::run_build_props(id, tier, deadline, &mut st, &mut log),
+        18 => {
+            // "builds promptly": a build that runs for more than FGV_BUILD_LIMIT_S (default 20 s;
+            // the repaired tree needs milliseconds) is reported even if the pop counter is never
+            // reached, and the process exits instead of hanging.
+            let limit = std::time::Duration::from_secs(std::env::var("FGV_BUILD_LIMIT_S").ok().and_then(|s| s.parse().ok()).unwrap_or(20));
+            let dir2 = dir.clone();
+            let tier2 = tier.to_string();
+            std::thread::spawn(move || loop {
+                std::thread::sleep(std::time::Duration::from_millis(250));
+                if let Some((spec_json, secs)) = props_build::watch_overdue(limit) {
+                    emergency_violation(&dir2, 18, &tier2, seed, &spec_json, &format!("build() still running after {secs:.0} s (limit {} s)", limit.as_secs()));
+                }
+            });
+            props_build::run_build_props(id, tier, deadline, &mut st, &mut log)
+        }
+        11 | 12 | 13 | 14 | 17 => props_build::run_build_props(id, tier, deadline, &mut st, &mut log),
         16 => props_build::run_c16(tier, deadline, &mut st, &mut log),
         15 => props_hist::run_c15(tier, deadline, &mut st, &mut log),
         20 => props_hist::run_c20(tier, deadline, &mut st, &mut log),
